@@ -6,7 +6,8 @@ B: TLC enumerates the typed table of Codec.tla (exhaustive < 5000 values per typ
 C: harness/cmd/codec runs every encoder and decoder of every table type on every value and every
    shaped document through every decoder; TLC (TrCodec) decides WellFormed / PathsAgree / RoundTrip /
    NoFailure.  The form life cycle is driven on the real form package (exhaustive short sequences +
-   seeded random ones) and every trace is validated by TLC against Form.tla (TrForm)."""
+   seeded random ones, on constructed forms and on forms decoded from documents of every type) and
+   every trace is validated by TLC against Form.tla (TrForm)."""
 import json, os, re, shutil
 import verif
 import codeccommon as cc
@@ -23,11 +24,13 @@ INVARIANT C19_GetAfterSet
 INVARIANT C19_GetReportsIt
 INVARIANT C19_SubmitShape
 INVARIANT C19_SubmitValuesDefined
+INVARIANT C19_DecodedFormsUsable
 PROPERTY C19_FieldsStable
+PROPERTY C19_TypeStable
 CHECK_DEADLOCK FALSE
 '''
 FORM_PROPS = ["C19_StoredFits", "C19_SetIffFits", "C19_GetAfterSet", "C19_GetReportsIt", "C19_SubmitShape",
-              "C19_SubmitValuesDefined", "C19_FieldsStable"]
+              "C19_SubmitValuesDefined", "C19_DecodedFormsUsable", "C19_FieldsStable", "C19_TypeStable"]
 MCCODEC_CFG = '''CONSTANTS
   Tier = "quick"
   Dev = {}
@@ -253,11 +256,12 @@ def run(ctx):
         "types_covered": covered, "types_uncovered": UNCOVERED,
         "exhaustive": False,
         "rule": "per type: the full product of the field domains of Codec.tla if < 5000 values, else every pair of (field, value) choices with the other fields at their base value; "
-                "shapes: 22 productions x 3 positions x 2 base values per decodable type; forms: every single operation and every Set followed by get/submit/encode resp. unmarshal/get/set/submit, plus seeded random sequences of 5 operations on 3 configurations; "
+                "shapes: 22 productions x 3 positions x 2 base values per decodable type; forms: every single operation and every Set followed by get/submit/encode resp. unmarshal/get/set/submit, on the constructed form AND on the form decoded (token stream / bytes) from a document of each of the 6 types of Form.tla (form, result, submit, cancel, no type attribute, unknown type); every pair (decode a document of type ty, operation); plus seeded random sequences of 5 operations (incl. the 12 decode operations) on 3 configurations; "
                 "distinct_nontrivial = distinct abstract token lists",
         "laws": ["InDomain", "Complete", "NoFailure (no error/panic on own output; shaped documents: value or error, no panic)",
                  "WellFormed (stack automaton, no duplicate attributes)", "PathsAgree", "RoundTrip (Expect per type, normal forms stated in Codec.tla)",
-                 "Form.tla: Set iff type fits, Get after Set, Raw stable, Submit ok iff required fields valued, submitted fields and values"],
+                 "Form.tla: Set iff type fits, Get after Set, Raw stable, Submit ok iff required fields valued, submitted fields and values, submission has type submit, "
+                 "the form's own encoding carries its type; all of them also on decoded forms of every type; no operation panics"],
         "samples": (summ["samples"][:1] + fsumm["samples"][:1]),
     }, assumptions=[
         "symbolic leaves: the text / address / time / integer / byte symbols of Stanza.tla; times are compared by instant (zone only for xtime)",
